@@ -200,7 +200,7 @@ func (w *World) mutatedFields() map[*types.Var]bool {
 							}
 							break
 						}
-						if _, fresh := base.(*ssa.Alloc); !fresh {
+						if !w.freshBase(base, 0) {
 							if v := structFieldVar(fa.X.Type(), fa.Field); v != nil {
 								out[v] = true
 							}
@@ -225,6 +225,39 @@ func (w *World) mutatedFields() map[*types.Var]bool {
 		}
 	}
 	return out
+}
+
+// freshBase: the struct written through base is still being built by the writer: a local of
+// the function, or - in a helper split off a reviewed function - a pointer parameter to which
+// every call hands the address of such a local.
+func (w *World) freshBase(base ssa.Value, depth int) bool {
+	switch b := base.(type) {
+	case *ssa.Alloc:
+		return true
+	case *ssa.Parameter:
+		fn := b.Parent()
+		if fn == nil || depth > 3 || !w.base.loaded || !w.isNewFn(fn) {
+			return false
+		}
+		idx := -1
+		for i, p := range fn.Params {
+			if p == b {
+				idx = i
+			}
+		}
+		sites := w.callSitesOfNew(fn)
+		if idx < 0 || len(sites) == 0 || len(w.newRefs[namedOf(fn)]) > 0 {
+			return false
+		}
+		for _, cs := range sites {
+			args := cs.Common().Args
+			if idx >= len(args) || !w.freshBase(args[idx], depth+1) {
+				return false
+			}
+		}
+		return true
+	}
+	return false
 }
 
 func (w *World) containerFields() map[string]string {
